@@ -56,15 +56,21 @@ class Faults:
         self.mut_calls = {}
         self.io_ops = 0
 
-    def maybe_mutator_fault(self, cname, meth):
+    def maybe_mutator_fault(self, cname, meth, site=None):
         mf = self.plan.get('mutator')
         if not mf or mf['cls'] != cname:
             return
         if mf.get('meth') and mf['meth'] != meth:
             return
+        if mf.get('site') and mf['site'] != site:
+            # fault placed at a particular call site of the mutator: calls
+            # from elsewhere neither fail nor count
+            return
         n = self.mut_calls.get(cname, 0) + 1
         self.mut_calls[cname] = n
-        if n >= mf.get('from', 1):
+        cnt = mf.get('count')
+        if n >= mf.get('from', 1) and (cnt is None
+                                       or n < mf.get('from', 1) + cnt):
             self.rec.count('fault.mutator_exception')
             exc = {
                 'IndexError': IndexError,
